@@ -188,6 +188,9 @@ def w_sweeper(ch: Choices, info: dict[str, Any]) -> list[Any]:
 CHECK = C10Check("C10", PROFILE, judge, setup=setup, need_ref=True, ref_setup=True,
                  nontrivial=lambda run, info: run["faults"].get("recovery_sweep", 0) + run["faults"].get("crash", 0) > 0)
 CHECK.w_share = 0.25
+# every sweep may add one StartStage per waiting stage, and each of those re-queues itself for up to
+# max_stage_wait_retries rounds: dense sweep placements need room to drain
+CHECK.extra_budget = 3000
 CHECK.w_extra = w_sweeper
 run_one = CHECK.run_one
 replay_one = CHECK.replay_one
